@@ -374,15 +374,62 @@ partial def loopRun (lines : Array String) (i : Nat) (t0 : Nat) (scripts : List 
 /-! ## thread / thread-pool mode under virtual time
 
 One worker (`Op.poll 0 clock` / `Op.wake 0`) runs to its next `wait_until` after every operation of the main thread;
-`adv t` moves the clock from one wait deadline to the next. -/
+`adv t` moves the clock from one wait deadline to the next.
+
+`cbs <tp> <id> s <tp2> <id2>` / `cbs <tp> <id> c <id2>` schedule a promise whose awaiter is a callback (`make_promise`)
+that calls the scheduler again — `sleep_until(tp2, id2)` / `cancel(id2)` — in whatever thread resolves the promise: the
+worker (inside `x()`, with `_mx` released: `workerIter`) or the caller of `cancel` / `remove`.  These calls are ordinary
+operations of the model that follow the completing one. -/
 
 structure MT where
   s : State := init
   clock : Nat := 0
+  cbs : List (Nat × Op) := []          -- serial ↦ the public call its completion callback makes (not yet fired)
+  cbev : List (Nat × String) := []     -- what the callbacks that returned since the last output line reported
+  kids : List (Nat × Nat) := []        -- serial of a sleep created by a callback ↦ serial of the sleep the callback belongs to
+  live : Bool := true                  -- harness: `sch_alive` (callbacks run by the destruction leave the scheduler alone)
 
 def workerWait (s : State) : Option (Option Nat) := (s.waits.find? (fun p => p.1 == 0)).map (·.2)
 
-/-- let the worker run until it is parked on a deadline in the future; returns the serials it resolved -/
+/-- the call the completion callback of `d` makes, if it has one that re-enters the scheduler -/
+def cbFor (m : MT) (d : Done) : Option Op :=
+  if m.live && d.fate != Fate.dropped then m.cbs.lookup d.serial else none
+
+/-- harness index of a sleep made by the main thread: the sleeps made by callbacks are not in the harness' future set -/
+def MT.index (m : MT) (serial : Nat) : Nat := serial - (m.kids.filter (fun p => p.1 < serial)).length
+
+/-- one callback makes its call (one lock region of the calling thread) -/
+def cbCall (m : MT) (k : Nat) (op : Op) : MT × String :=
+  let (s1, r) := step H m.s op
+  let m1 := { m with s := s1, cbs := m.cbs.filter (fun p => p.1 != k) }
+  match r with
+  | Res.scheduled k2 _ => ({ m1 with kids := m1.kids ++ [(k2, k)] }, s!"cbs#{m.index k}=s")
+  | Res.flag b => (m1, s!"cbc#{m.index k}={boolStr b}")
+  | _ => (m1, s!"cb#{m.index k}=?")
+
+/-- a thread that is not stalled anywhere runs the completion callbacks of everything logged from index `i` on to
+their end; a callback's `cancel` that hits a sleep with a callback runs that one nested, i.e. next (every call completes
+at most one sleep, so the order of the log is the order of execution) -/
+partial def fireAll (m : MT) (i : Nat) : MT :=
+  match m.s.log[i]? with
+  | none => m
+  | some d =>
+    match cbFor m d with
+    | none => fireAll m (i + 1)
+    | some op =>
+        let (m1, ev) := cbCall m d.serial op
+        fireAll { m1 with cbev := m1.cbev ++ [(d.serial, ev)] } (i + 1)
+
+/-- a public call of the main thread, including the callbacks it runs -/
+def mainStep (m : MT) (op : Op) : MT × Res :=
+  let (s1, r) := step H m.s op
+  (fireAll { m with s := s1 } m.s.log.length, r)
+
+/-- one free-running iteration of the worker (`workerIter`): the `poll` region, then the resolution with its callbacks -/
+def workerPoll (m : MT) : MT :=
+  fireAll { m with s := (step H m.s (Op.poll 0 m.clock)).1 } m.s.log.length
+
+/-- let the worker run until it is parked on a deadline in the future -/
 def settle (m : MT) : Nat → MT
   | 0 => m
   | fuel + 1 =>
@@ -390,13 +437,21 @@ def settle (m : MT) : Nat → MT
       | some (some d) =>
           if d ≤ m.clock then settle { m with s := (step H m.s (Op.wake 0)).1 } fuel else m
       | some none => m
-      | none => settle { m with s := (step H m.s (Op.poll 0 m.clock)).1 } fuel
+      | none => settle (workerPoll m) fuel
 
+/-- the events of one output line / one wake-up group: completions of the main thread's sleeps in index order, of the
+sleeps made by callbacks in the order of their parents, then what the callbacks reported -/
 def mtEvents (m0 m1 : MT) : List String :=
-  (sortBy (fun (d : Done) => (d.serial, 0)) (m1.s.log.drop m0.s.log.length)).map
-    (fun d => s!"sleep#{d.serial}={fateStr d.fate}@{m1.clock}")
+  let fresh := m1.s.log.drop m0.s.log.length
+  let own := fresh.filter (fun d => (m1.kids.lookup d.serial).isNone)
+  let made := fresh.filterMap (fun d => (m1.kids.lookup d.serial).map (fun k => (m1.index k, d)))
+  (sortBy (fun (d : Done) => (d.serial, 0)) own).map (fun d => s!"sleep#{m1.index d.serial}={fateStr d.fate}@{m1.clock}") ++
+  (sortBy (fun (e : Nat × Done) => (e.1, 0)) made).map (fun e => s!"cs#{e.1}={fateStr e.2.fate}@{m1.clock}") ++
+  (sortBy (fun (e : Nat × String) => (e.1, 0)) m1.cbev).map (fun e => s!"{e.2}@{m1.clock}")
 
-def settleFuel (m : MT) : Nat := 4 * m.s.heap.length + 8
+def MT.flushed (m : MT) : MT := { m with cbev := [] }
+
+def settleFuel (m : MT) : Nat := 4 * (m.s.heap.length + m.cbs.length) + 8
 
 /-- `adv t`: one group of events per wake-up -/
 def advance (m : MT) (t : Nat) : Nat → MT × List String
@@ -405,43 +460,55 @@ def advance (m : MT) (t : Nat) : Nat → MT × List String
       match workerWait m.s with
       | some (some d) =>
           if d ≤ t then
-            let m1 : MT := { s := (step H m.s (Op.wake 0)).1, clock := max m.clock d }
+            let m1 : MT := { m with s := (step H m.s (Op.wake 0)).1, clock := max m.clock d }
             let m2 := settle m1 (settleFuel m1)
-            let (m3, evs) := advance m2 t fuel
+            let (m3, evs) := advance m2.flushed t fuel
             (m3, mtEvents { m with clock := m1.clock } m2 ++ evs)
           else ({ m with clock := max m.clock t }, [])
       | _ => ({ m with clock := max m.clock t }, [])
+
+/-- `cbs <tp> <id> s <tp2> <id2>` | `cbs <tp> <id> c <id2>`: the call the callback makes -/
+def cbsOp (ws : List String) : Op :=
+  let nat (i : Nat) : Nat := (natArg ws i).getD 0
+  match ws[3]? with
+  | some "c" => Op.cancel (nat 4) 0
+  | _ => Op.schedule (nat 4) (nat 5)
 
 def mtOp (m : MT) (ws : List String) : Option (MT × String) :=
   let nat (i : Nat) : Nat := (natArg ws i).getD 0
   let fin (m1 : MT) (head : String) : MT × String :=
     let m2 := settle m1 (settleFuel m1)
-    (m2, withEvents head (mtEvents m m2))
+    (m2.flushed, withEvents head (mtEvents m m2))
   match ws with
   | "sleep" :: _ | "sched" :: _ =>
-      match step H m.s (Op.schedule (nat 1) (nat 2)) with
-      | (s1, Res.scheduled k ntf) => some (fin { m with s := s1 } s!"sleep#{k} ntf={boolStr ntf}")
-      | (s1, _) => some ({ m with s := s1 }, "bad-op")
+      match mainStep m (Op.schedule (nat 1) (nat 2)) with
+      | (m1, Res.scheduled k ntf) => some (fin m1 s!"sleep#{m1.index k} ntf={boolStr ntf}")
+      | (m1, _) => some (m1, "bad-op")
+  | "cbs" :: _ =>
+      match mainStep m (Op.schedule (nat 1) (nat 2)) with
+      | (m1, Res.scheduled k ntf) => some (fin { m1 with cbs := m1.cbs ++ [(k, cbsOp ws)] } s!"sleep#{m1.index k} ntf={boolStr ntf}")
+      | (m1, _) => some (m1, "bad-op")
   | "adv" :: _ =>
-      let (m1, evs) := advance m (nat 1) (2 * m.s.heap.length + 4)
-      some (m1, withEvents "adv" evs)
+      let (m1, evs) := advance m (nat 1) (2 * (m.s.heap.length + m.cbs.length) + 4)
+      some (m1.flushed, withEvents "adv" evs)
   | ["cancel", _] | ["cancelx", _, _] =>
-      match step H m.s (Op.cancel (nat 1) (nat 2)) with
-      | (s1, Res.flag b) => some (fin { m with s := s1 } s!"cancel {boolStr b}")
-      | (s1, _) => some ({ m with s := s1 }, "bad-op")
+      match mainStep m (Op.cancel (nat 1) (nat 2)) with
+      | (m1, Res.flag b) => some (fin m1 s!"cancel {boolStr b}")
+      | (m1, _) => some (m1, "bad-op")
   | "remove" :: _ =>
-      match step H m.s (Op.remove (nat 1)) with
-      | (s1, Res.removed r) => some (fin { m with s := s1 } s!"remove {boolStr r.isSome}")
-      | (s1, _) => some ({ m with s := s1 }, "bad-op")
+      match mainStep m (Op.remove (nat 1)) with
+      | (m1, Res.removed r) => some (fin m1 s!"remove {boolStr r.isSome}")
+      | (m1, _) => some (m1, "bad-op")
   | ["dump"] => some (m, "dump " ++ dumpStr m.s.heap)
   | _ => none
+
+/-- `~scheduler()`: callbacks run by the destruction do not use the dying scheduler -/
+def mtDestroy (m : MT) : MT := { m with s := (step H m.s Op.destroy).1, live := false }
 
 partial def loopMT (lines : Array String) (i : Nat) (m : MT) : IO Nat := do
   if h : i < lines.size then
     let ws := words lines[i]
-    let finish : List String :=
-      let m1 : MT := { m with s := (step H m.s Op.destroy).1 }
-      mtEvents m m1
+    let finish : List String := mtEvents m (mtDestroy m)
     match ws with
     | ["end"] =>
         IO.println (withEvents "end" finish)
@@ -461,13 +528,16 @@ partial def loopMT (lines : Array String) (i : Nat) (m : MT) : IO Nat := do
 
 /-! ## step mode: the worker advances one lock region per `w`, public calls run in between
 
-The code's lock regions of the worker: a trivial one after each (re)acquisition that follows the start or a wait (loop
-condition only), then one `Op.poll` region per iteration, ending in `lk.unlock()` (a promise was resolved) or atomically
-in `wait_until` (parked). -/
+The lock regions of the worker's thread are those of the lock program `workerIter` (Scheduler.lean):
+`[lock, pollLk, unlock]` — ending in `lk.unlock()` when a promise was handed out, or atomically in `wait_until` —, then
+`resolveExpired cb` with `_mx` released, where every public call of a completion callback is a region of its own, then the
+trivial `[lock, unlock]` (loop condition only), which also follows the start of the coroutine and every return from
+`wait_until`. -/
 
 inductive StepPc where
-  | trivial      -- in front of `_mx`: start of the coroutine, or return from `wait_until`
+  | trivial      -- in front of `_mx`: start of the coroutine, return from `wait_until`, or `lk.lock()` after a resolution
   | pollNext     -- in front of `_mx`: next region is a full iteration (`Op.poll`)
+  | calling (k : Nat)   -- inside `x()`, `_mx` released: in front of `_mx` in the public call of the callback of sleep `k`
   | parked       -- in `wait_until`
   | free         -- step mode ended: the worker runs freely
   deriving BEq
@@ -475,29 +545,69 @@ inductive StepPc where
 structure SM where
   m : MT := {}
   pc : StepPc := StepPc.trivial
+  outer : List (Nat × String) := []   -- callbacks whose call is made and which wait for a nested callback to return
 
 def smStatus (x : SM) : String :=
   match x.pc with
-  | StepPc.trivial | StepPc.pollNext => "lock"
+  | StepPc.trivial | StepPc.pollNext | StepPc.calling _ => "lock"
   | _ => match workerWait x.m.s with
     | some (some d) => s!"parked:{d}"
     | some none => "parked:max"
     | none => "gone"
 
 def smLine (x0 x1 : SM) (head : String) : SM × String :=
-  (x1, withEvents (head ++ " w=" ++ smStatus x1) (mtEvents x0.m x1.m))
+  ({ x1 with m := x1.m.flushed }, withEvents (head ++ " w=" ++ smStatus x1) (mtEvents x0.m x1.m))
+
+/-- the sleep completed by the region that just ran (the log had length `n0` before), if its callback re-enters -/
+def nextCallback (m : MT) (n0 : Nat) : Option Nat :=
+  match m.s.log[n0]? with
+  | some d => (cbFor m d).map (fun _ => d.serial)
+  | none => none
 
 /-- one lock region of the worker -/
 def smWorker (x : SM) : SM :=
   match x.pc with
   | StepPc.trivial => { x with pc := StepPc.pollNext }
   | StepPc.pollNext =>
+      let n0 := x.m.s.log.length
       match step H x.m.s (Op.poll 0 x.m.clock) with
-      | (s1, Res.expired _) => { x with m := { x.m with s := s1 } }
+      | (s1, Res.expired _) =>
+          -- `lk.unlock(); x();` — the awaiter runs now: a callback stalls in front of `_mx` in its first call;
+          -- otherwise `x()` returns and the worker stands in front of `lk.lock()`
+          let m1 := { x.m with s := s1 }
+          match nextCallback m1 n0 with
+          | some k => { x with m := m1, pc := StepPc.calling k }
+          | none => { x with m := m1, pc := StepPc.trivial }
       | (s1, Res.next (some d)) =>
-          if d ≤ x.m.clock then { x with m := { x.m with s := (step H s1 (Op.wake 0)).1 } }   -- wait_until returns at once
-          else { m := { x.m with s := s1 }, pc := StepPc.parked }
-      | (s1, _) => { m := { x.m with s := s1 }, pc := StepPc.parked }
+          if d ≤ x.m.clock then { x with m := { x.m with s := (step H s1 (Op.wake 0)).1 } }   -- wait_until returns at once: same region goes on to the loop top
+          else { x with m := { x.m with s := s1 }, pc := StepPc.parked }
+      | (s1, _) => { x with m := { x.m with s := s1 }, pc := StepPc.parked }
+  | StepPc.calling k =>
+      match x.m.cbs.lookup k with
+      | none => { x with pc := StepPc.trivial }
+      | some op =>
+          let n0 := x.m.s.log.length
+          let (m1, ev) := cbCall x.m k op
+          match nextCallback m1 n0 with
+          | some k2 =>
+              -- the call completed a sleep whose awaiter is a callback, too: it runs nested (inside `cancel()`)
+              { x with m := m1, pc := StepPc.calling k2, outer := (k, ev) :: x.outer }
+          | none =>
+              -- the call returns, and so do the callbacks waiting for it; `x()` returns: `lk.lock()`
+              { m := { m1 with cbev := m1.cbev ++ [(k, ev)] ++ x.outer }, pc := StepPc.trivial, outer := [] }
+  | _ => x
+
+/-- the stepping ends (`free`, or the destruction): a call the worker was stalled in front of goes ahead -/
+def smRelease (x : SM) : SM :=
+  match x.pc with
+  | StepPc.calling k =>
+      match x.m.cbs.lookup k with
+      | none => { x with pc := StepPc.trivial }
+      | some op =>
+          let n0 := x.m.s.log.length
+          let (m1, ev) := cbCall x.m k op
+          let m2 := fireAll m1 n0
+          { m := { m2 with cbev := m2.cbev ++ [(k, ev)] ++ x.outer }, pc := StepPc.trivial, outer := [] }
   | _ => x
 
 def smOp (x : SM) (ws : List String) : Option (SM × String) :=
@@ -517,21 +627,30 @@ def smOp (x : SM) (ws : List String) : Option (SM × String) :=
           some ({ x with m := m1 }, head ++ " w=" ++ smStatus { x with m := m1 } ++ evs)
       | none => none
   else
+    let sched (cb : Option Op) : Option (SM × String) :=
+      match mainStep x.m (Op.schedule (nat 1) (nat 2)) with
+      | (m1, Res.scheduled k ntf) =>
+          let pc := if x.pc == StepPc.parked && ntf then StepPc.trivial else x.pc
+          let m2 := match cb with
+            | some op => { m1 with cbs := m1.cbs ++ [(k, op)] }
+            | none => m1
+          some (smLine x { x with m := m2, pc := pc } s!"sleep#{m2.index k} ntf={boolStr ntf}")
+      | (m1, _) => some ({ x with m := m1 }, "bad-op")
+    /- a callback run by the main thread (`cancel` / `remove` hit a sleep with a callback) may schedule: the parked worker
+       is woken by that notification as by any other -/
+    let woken (m0 m1 : MT) (pc : StepPc) : StepPc :=
+      if pc == StepPc.parked && (workerWait m0.s).isSome && (workerWait m1.s).isNone then StepPc.trivial else pc
     match ws with
-    | "sleep" :: _ | "sched" :: _ =>
-        match step H x.m.s (Op.schedule (nat 1) (nat 2)) with
-        | (s1, Res.scheduled k ntf) =>
-            let pc := if x.pc == StepPc.parked && ntf then StepPc.trivial else x.pc
-            some (smLine x { m := { x.m with s := s1 }, pc := pc } s!"sleep#{k} ntf={boolStr ntf}")
-        | (s1, _) => some ({ x with m := { x.m with s := s1 } }, "bad-op")
+    | "sleep" :: _ | "sched" :: _ => sched none
+    | "cbs" :: _ => sched (some (cbsOp ws))
     | ["cancel", _] | ["cancelx", _, _] =>
-        match step H x.m.s (Op.cancel (nat 1) (nat 2)) with
-        | (s1, Res.flag b) => some (smLine x { x with m := { x.m with s := s1 } } s!"cancel {boolStr b}")
-        | (s1, _) => some ({ x with m := { x.m with s := s1 } }, "bad-op")
+        match mainStep x.m (Op.cancel (nat 1) (nat 2)) with
+        | (m1, Res.flag b) => some (smLine x { x with m := m1, pc := woken x.m m1 x.pc } s!"cancel {boolStr b}")
+        | (m1, _) => some ({ x with m := m1 }, "bad-op")
     | "remove" :: _ =>
-        match step H x.m.s (Op.remove (nat 1)) with
-        | (s1, Res.removed r) => some (smLine x { x with m := { x.m with s := s1 } } s!"remove {boolStr r.isSome}")
-        | (s1, _) => some ({ x with m := { x.m with s := s1 } }, "bad-op")
+        match mainStep x.m (Op.remove (nat 1)) with
+        | (m1, Res.removed r) => some (smLine x { x with m := m1, pc := woken x.m m1 x.pc } s!"remove {boolStr r.isSome}")
+        | (m1, _) => some ({ x with m := m1 }, "bad-op")
     | ["dump"] => some (smLine x x ("dump " ++ dumpStr x.m.s.heap))
     | ["w"] => some (smLine x (smWorker x) "w")
     | "adv" :: _ =>
@@ -539,20 +658,23 @@ def smOp (x : SM) (ws : List String) : Option (SM × String) :=
         let x1 : SM := { x with m := { x.m with clock := clock } }
         let x2 : SM := match x1.pc, workerWait x1.m.s with
           | StepPc.parked, some (some d) =>
-              if d ≤ clock then { m := { x1.m with s := (step H x1.m.s (Op.wake 0)).1 }, pc := StepPc.trivial } else x1
+              if d ≤ clock then { x1 with m := { x1.m with s := (step H x1.m.s (Op.wake 0)).1 }, pc := StepPc.trivial } else x1
           | _, _ => x1
-        some (smLine { x with m := { x.m with clock := clock } } x2 "adv")
+        some (smLine x1 x2 "adv")
     | ["free"] =>
-        let m1 := settle x.m (settleFuel x.m)
-        some (smLine x { m := m1, pc := StepPc.free } "free")
+        let x1 := smRelease x
+        let m1 := settle x1.m (settleFuel x1.m)
+        some (smLine x { x1 with m := m1, pc := StepPc.free } "free")
     | _ => none
 
 partial def loopSM (lines : Array String) (i : Nat) (x : SM) : IO Nat := do
   if h : i < lines.size then
     let ws := words lines[i]
     let finish : List String :=
-      let m1 : MT := { x.m with s := (step H x.m.s Op.destroy).1 }
-      mtEvents x.m m1
+      -- `sch_alive = false`, then `~scheduler()`: a call the worker is stalled in front of still goes ahead (its callback
+      -- has already decided to make it), callbacks that start from now on leave the scheduler alone
+      let x1 := smRelease { x with m := { x.m with live := false } }
+      mtEvents x.m (mtDestroy x1.m)
     match ws with
     | ["end"] =>
         IO.println (withEvents "end" finish)
